@@ -43,6 +43,20 @@ CLAIMED["C09"] = (
     "Trusts vkit/ref/lex.py (regular expressions + the spec's BlockStringValue) as the lexical grammar.",
     "DESIGN.md 3/C09",
 )
+CLAIMED["C01"] = (
+    "generated-input totality check: grammar documents cut at every prefix, point-edited, token soup, "
+    "bracket ramps, arbitrary unicode; bounded-exhaustive escape-atom sequences and exception-class x "
+    "fault-site product; response-format validator as oracle",
+    "Every parse entry point must return a Node or raise GraphQLSyntaxError on every generated text; "
+    "graphql_sync/graphql must return an ExecutionResult whose formatted form passes a response-format "
+    "validator written from the specification for generated (schema, source, adversarial variables, "
+    "operation name) tuples; every concrete builtin Exception class and custom classes with odd "
+    "attributes raised at 9 fault sites (sync/async) must yield exactly one located error at the fault's "
+    "response path and null at the nearest nullable ancestor.",
+    "Nesting bounded at 100; exceptions with a raising __str__ and non-Exception BaseExceptions are out "
+    "of scope; variable maps are JSON-like (string keys).",
+    "DESIGN.md 3/C01",
+)
 PENDING_REASON = (
     "check under construction in this session (DESIGN.md section 3 has its design); it is not claimed "
     "until it has run quietly on the unchanged tree at several seeds"
